@@ -33,8 +33,8 @@ qs += [query(1, 1, S, crit('one', leaves[0])), query(2, 3, [1], crit('one', leav
 
 fams = []
 for idx in ('none', 'inverted'):
-    fams.append(dict(name='measure-criteria-' + idx, series=S, times=[1, 2, 3], versions=[1, 2], versioned=True, maxrows=3, maxtotal=8,
-                     maxops=4, graphops=0, sims=40 if c.quick else 400, simops=11, queries=qs, index=idx))
+    fams.append(dict(name='measure-criteria-' + idx, series=S, times=[1, 2, 3], versions=[1, 2], versioned=True, maxrows=1, maxtotal=3,
+                     maxops=3, graphops=0, sims=40 if c.quick else 400, simops=11, queries=qs, index=idx, sim=dict(maxrows=3, maxtotal=8)))
 def nontrivial(st):
     ops = [x['last'].get('op') for x in st[1:]]
     return 'queryall' in ops and ('flush' in ops or 'merge' in ops)
